@@ -1,38 +1,75 @@
 """Harness catalogue: which Kani harnesses decide which property, at which tier.
 
-Every entry names a #[kani::proof] function in /verif/kani (or another harness
-crate), its bounds in words, and how its output is judged:
+Every entry names a #[kani::proof] function in /verif/kani (or /verif/kani17),
+its bounds in words, and how its output is judged:
   lr=True              Lal-Reps harness: only the deferred property assertions,
                        unwinding assertions and cover witnesses are judged
-  judge_repo_panics    any reachable panic/overflow/invalid pointer located in
-                       /repo code is a violation of this property
+  judge_repo_panics    any reachable panic located in /repo code is a violation
+  also=[..]            the harness also carries assertions of these properties
+                       (prefix "Cxx:"); they are judged under the property that
+                       lists the harness
 """
-
-def H(harness, tiers=("quick", "thorough"), crate="kani", timeout=900, **kw):
-    d = dict(harness=harness, tiers=list(tiers), crate=crate, timeout=timeout)
-    d.update(kw)
-    return d
 
 LRF = ("-Z unstable-options --no-assertion-reach-checks --no-overflow-checks "
        "--no-memory-safety-checks --no-undefined-function-checks")
 Q = ("quick", "thorough")
 T = ("thorough",)
 
+
+def H(harness, tiers=Q, crate="kani", timeout=1500, kani_flags=LRF, **kw):
+    d = dict(harness=harness, tiers=list(tiers), crate=crate, timeout=timeout, kani_flags=kani_flags)
+    d.update(kw)
+    return d
+
+
+C01_LR = H("c01::proofs::c01_lr_w1x2_r2_k3", Q, lr=True,
+           what="real half_lock.rs: 1 writer thread x 2 store(), 2 reader threads (read, use, use, drop)",
+           bounds="Lal-Reps K=3 rounds, 3 threads, spin bound 4, unwind 8")
+
 CATALOGUE = {
-    "C01": [
-        H("c01::proofs::c01_lr_w1x2_r2_k3", Q, lr=True, timeout=1200, kani_flags=LRF,
-          what="real half_lock.rs: 1 writer thread x 2 store(), 2 reader threads (read, use, use, drop)",
-          bounds="Lal-Reps K=3 rounds, 3 threads, spin bound 4, unwind 8"),
+    "C01": [C01_LR],
+    "C05": [
+        H("c05::proofs::c05_q_history", Q, also=["C02"],
+          what="real registry: 3 registrations on 2 signals, deliveries, unregister of ANY (signal,id) pair, re-register, unregister_signal; vs list model",
+          bounds="fixed 11-operation history, symbolic id (u128) and signal pairing; maps <=2 signals x <=3 actions"),
+        H("c05::proofs::c05_step_register", T, timeout=2400,
+          what="one register() from any valid registry state vs list model", bounds="state <=2 signals, <=2+1 actions, symbolic ids/next_id"),
+        H("c05::proofs::c05_step_unregister", T, timeout=2400, also=["C02"],
+          what="one unregister(any signal, any u128 id) from any valid state", bounds="as above"),
+        H("c05::proofs::c05_step_unregister_signal", T, timeout=2400,
+          what="one unregister_signal() from any valid state", bounds="as above"),
+        H("c05::proofs::c05_step_deliver", T, timeout=2400, also=["C02"],
+          what="one delivery from any valid state", bounds="as above"),
+    ],
+    "C06": [
+        H("c06::proofs::c06_seq_send_step", Q, what="one send() from any well-formed channel state (<=2 indices in flight) vs 5-bounded FIFO", bounds="all 2^16 x 2^16 queue words satisfying the representation invariant; payload u8"),
+        H("c06::proofs::c06_seq_recv_step", Q, what="one recv() from any well-formed channel state vs FIFO pop", bounds="as above"),
+        H("c06::proofs::c06_new_is_empty", Q, what="Channel::new() is empty and well-formed", bounds="-"),
+    ],
+    "C07": [
+        H("c07::proofs::c07_lr_reuse_k3", Q, lr=True, what="consumer takes the only queued value, producer's send reuses that cell: happens-before under declared orderings, drops", bounds="Lal-Reps K=3, 2 threads, <=1 spurious CAS failure"),
+        H("c07::proofs::c07_lr_p2_c1_k3", T, lr=True, timeout=3000, what="2 producers (2+1 sends), 1 consumer (3 recvs): cell races, exactly-once drop, FIFO clauses", bounds="Lal-Reps K=3, 3 threads, <=1 spurious CAS failure"),
+    ],
+    "C13": [
+        H("c13::proofs::c13_wake_pipe", Q, what="pipe.rs on a pipe at any fill level: register, burst of 1..2 deliveries, unregister, delivery", bounds="capacity 3, burst<=2"),
+        H("c13::proofs::c13_wake_stream", Q, what="same on a stream socket", bounds="capacity 3, burst<=2"),
+        H("c13::proofs::c13_wake_dgram", T, what="same on a datagram socket", bounds="capacity 3 datagrams, burst<=2"),
+        H("c13::proofs::c13_wake_regular_file", T, what="same on a regular file", bounds="burst<=2"),
+        H("c13::proofs::c13_rejected_registration", Q, what="invalid descriptor / fcntl failure / kernel-rejected signal: descriptor closed once, nothing registered", bounds="3 rejection causes"),
+    ],
+    "C15": [
+        H("c15::proofs::c15_flags_hold_value", Q, what="flag::register / register_usize through the real dispatcher, application writes in between", bounds="any bool/usize values, 2 deliveries"),
+        H("c15::proofs::c15_conditional_shutdown", Q, what="conditional shutdown + arming flag, both registration orders, any status (c_int), every arm/disarm/deliver history", bounds="history length 3"),
+    ],
+    "C16": [
+        H("c16::proofs::c16_emulate_default_all_signals", Q, what="emulate_default_handler + signal_name for every c_int, from normal context and from the signal's own (blocked) handler; oracle = live kernel table", bounds="all 2^32 signal numbers x 2 contexts"),
+        H("c16::proofs::c16_terminating_witness", Q, what="SIGTERM from inside its own handler never returns", bounds="-"),
+    ],
+    "C17": [
+        H("proofs::c17_extract_all_bytes", Q, crate="kani17", guard=False,
+          kani_flags="-Z c-ffi --c-lib /repo/src/low_level/extract.c",
+          what="Origin::extract (real Rust + real extract.c) on every 128-byte siginfo_t", bounds="all 2^1024 byte patterns; x86-64 Linux layout"),
     ],
 }
 
-PROPERTY_INFO = {
-    "C01": dict(
-        bounds="K<=3 (quick) / 4 (thorough) round-robin rounds; <=3 threads; <=3 stores; SeqCst only",
-        outside="more rounds/threads/stores; orderings weaker than SeqCst (reported as inconclusive); unwinding paths",
-        assumptions=[
-            "sequentially consistent interleavings (half_lock.rs uses SeqCst only; any weaker ordering is flagged)",
-            "frees are virtualised: alloc::alloc::dealloc_nonnull is stubbed to a no-op, the logical free is Drop of the payload",
-            "spin loop iterations that do not advance the round are stutter steps (bounded by assumption)",
-        ]),
-}
+PROPERTY_INFO = {}
